@@ -17,6 +17,56 @@ STATE_TY = "&mut anstyle_parse::state::definitions::State"
 STATE = "anstyle_parse::state::definitions::State"
 
 
+def _select_then_store(root):
+    """`let x = if c { K } else { *state }; *state = x;`  ->  `if c { *state = K; } let x = *state;` (the same two values: the state
+    becomes K exactly when c holds, and x is the state afterwards) — the form the carried-state rules read."""
+    import norm
+
+    def is_deref_local(e):
+        e = hir.simp(e)
+        while isinstance(e, dict) and e.get("k") == "block" and "expr" in e:
+            st_ = e.get("stmts", [])
+            if not st_:
+                e = hir.simp(e["expr"])
+            elif len(st_) == 1 and st_[0].get("k") == "let" and st_[0]["pat"].get("k") == "pbind" and "init" in st_[0] \
+                    and hir.simp(e["expr"]).get("k") == "local" and hir.simp(e["expr"]).get("id") == st_[0]["pat"].get("id"):
+                e = hir.simp(st_[0]["init"])          # `{ let other = *state; other }`
+            else:
+                break
+        return e if isinstance(e, dict) and e.get("k") == "un" and e.get("op") == "Deref" and hir.simp(e["e"]).get("k") == "local" else None
+
+    def fn(n):
+        if n.get("k") != "block":
+            return n
+        st = list(n.get("stmts", []))
+        for i in range(len(st) - 1):
+            a, b = st[i], hir.simp(st[i + 1])
+            if not (isinstance(a, dict) and a.get("k") == "let" and a["pat"].get("k") == "pbind" and "init" in a and "els" not in a):
+                continue
+            init = hir.simp(a["init"])
+            if not (init.get("k") == "if" and "e" in init):
+                continue
+            place = is_deref_local(init["e"])
+            if place is None or not pure(init["c"]) or not pure(init["t"]):
+                continue
+            if not (b.get("k") == "assign" and hir.simp(b["l"]).get("k") == "un" and hirpp.expr(b["l"]) == hirpp.expr(place)
+                    and hir.simp(b["r"]).get("k") == "local" and hir.simp(b["r"]).get("id") == a["pat"].get("id")):
+                continue
+            k_ = init["t"]
+            while isinstance(hir.simp(k_), dict) and hir.simp(k_).get("k") == "block" and not hir.simp(k_).get("stmts") and "expr" in hir.simp(k_):
+                k_ = hir.simp(k_)["expr"]
+            store = {"k": "assign", "l": b["l"], "r": k_, "ln": b.get("ln"), "ty": "()"}
+            guard = {"k": "if", "c": init["c"], "t": {"k": "block", "stmts": [store], "ty": "()", "ln": a.get("ln")}, "ln": a.get("ln"), "ty": "()", "norm": "select-then-store"}
+            st[i] = guard
+            st[i + 1] = dict(a, init=place)
+            return dict(n, stmts=st)
+        return n
+
+    def pure(e):
+        return norm.pure(e)
+    return norm.map_tree(root, fn)
+
+
 class Scanner:
     def __init__(self, facts, name):
         self.facts = facts
@@ -24,7 +74,10 @@ class Scanner:
         b0 = facts.body(CRATE, MOD + name)
         # the scanners' tests of the carried state are read in their `if *state == State::X` form; `match *state { State::X => .., other => .. }`
         # is the same test
-        self.body = dict(b0, hir=norm.variant_match_to_if(b0["hir"]))
+        h0 = norm.variant_match_to_if(b0["hir"])
+        if h0 is not b0["hir"]:
+            h0 = _select_then_store(norm.alias(h0, b0.get("params", [])))
+        self.body = dict(b0, hir=h0)
         self.name = name
         b = self.body
         ps = [p for p in b["params"] if p.get("k") == "pbind"]
